@@ -43,7 +43,7 @@ def order(rep, rule, f, key, a_evs, b_evs, what, strict_after=True, conditional=
 def run(rep, prog, C, eff, entry_ids):
     rep.rule("R06.4", "delete_collection: name lock < tombstone < begin_delete < metadata flush < drop_data < registry removal < tombstone removal; "
                       "Storage::drop_data callers; open/create consult the tombstone", floor=12)
-    rep.rule("R06.5", "per-name lifecycle lock held across every storage-affecting step of open/close/delete/create; poisoned handle drained, never closed", floor=8)
+    rep.rule("R06.5", "per-name lifecycle lock held across every storage-affecting step of open/close/delete/create; poisoned handle drained, never closed; a handle is unregistered only when quiescent", floor=11)
     rep.rule("R06.7", "database read-only: open path flushes only on the not-read-only edge; create/delete refuse first", floor=4)
 
     def body(name):
@@ -194,6 +194,28 @@ def run(rep, prog, C, eff, entry_ids):
     rep.ob("R06.5", "poisoned-drained-not-closed|open_collection_with_schema", ok,
            "on the is_poisoned edge the retiring handle is drained and Collection::close is not reached before the fresh load",
            pois[0].where() if pois else f.file)
+    # a handle leaves the registry only once it is quiescent: after its close() returned Ok, after its operations were drained
+    # (poisoned handle), or after its data was dropped.  Evicting a handle whose close failed lets the next open skip the
+    # drain and load a fresh generation while an operation admitted on the old handle is still in flight.
+    for g in prog.fns.values():
+        if not g.file.endswith("anda_db/src/database.rs"):
+            continue
+        rem = [e for e in g.calls() if re.search(r"(HashMap|BTreeMap).*::remove$", e.name or "")
+               and "collections" in anda.recv_fields(g, e) and "metadata" not in anda.recv_fields(g, e)]
+        if not rem:
+            continue
+        rep.saw(g, len(rem))
+        q = set()
+        for c in g.calls_named(r"^anda_db::collection::Collection::(close|drop_data)$"):
+            q |= set(g.result_edges(c)[0])
+        for c in g.calls_named(r"^anda_db::collection::Collection::drain_operations$"):
+            t_ = g.term(c.block)
+            q.add(t_["t"] if t_["k"] == "call" and t_.get("t") is not None else c.block)
+        for r_ in rem:
+            rep.ob("R06.5", "unregister-only-when-quiescent|%s" % prog.outer_fn(g).path.rsplit("::", 1)[1], bool(q) and g.must_pass(q, [r_.block]),
+                   "a collection handle is removed from the registry on a path that passed neither the Ok edge of its close()/drop_data() nor a drain of its operations",
+                   r_.where())
+
     # retiring handle is closed (or drained) before Collection::open loads a fresh generation
     opens = f.calls_named(r"^anda_db::collection::Collection::open$")
     lockev = f.calls_named(r"AndaDB::lock_collection_name$")
@@ -266,6 +288,7 @@ def _bool_switch(f, e):
                     elif p is not None and p.l in neg:
                         der.add(dl)
                         changed = True
+    cands = []
     for b in sorted(f.live_blocks()):
         t = f.term(b)
         if t["k"] != "switch":
@@ -277,9 +300,14 @@ def _bool_switch(f, e):
             continue
         vals = dict(t["v"])
         if p.l in der and "0" in vals:
-            return (vals["0"], t["else"])
-        if p.l in neg and "0" in vals:
-            return (t["else"], vals["0"])
+            cands.append((b, (vals["0"], t["else"])))
+        elif p.l in neg and "0" in vals:
+            cands.append((b, (t["else"], vals["0"])))
+    # the test nearest to the call: the candidate no other candidate dominates (block numbers say nothing about order
+    # once helper bodies have been appended by the inliner)
+    for (b, r) in cands:
+        if not any(b2 != b and f.dominates(b2, b) for (b2, _) in cands):
+            return r
     return (None, None)
 
 
